@@ -10,6 +10,7 @@ pub mod sim;
 
 pub mod io;
 pub mod net;
+pub mod runtime;
 pub mod sync;
 pub mod task;
 pub mod time;
